@@ -358,3 +358,5 @@ class Sim:
                 pass
             self.loop.close()
             asyncio.set_event_loop(None)
+            from kv import vthreads
+            vthreads.reset()          # handler threads still waiting (abandoned sync daemons, killed operators) unwind now
